@@ -39,7 +39,7 @@ type Case struct {
 	Tail bool `json:"tail,omitempty"`
 }
 
-var spinCores = []string{"loop", "loop_cond", "cfor", "cfor_nocond", "forin_nested", "forin_map", "recursion", "loop_in_switch", "loop_nested_break", "loop_continue", "fanout_range", "fanout_recv", "fanout_recv2", "pipeline_relay", "deep_recursion"}
+var spinCores = []string{"loop", "loop_cond", "cfor", "cfor_nocond", "forin_nested", "forin_map", "recursion", "loop_in_switch", "loop_nested_break", "loop_continue", "fanout_range", "fanout_recv", "fanout_recv2", "pipeline_relay", "deep_recursion", "fail_after_tick", "member_after_tick", "throw_spin", "fail_in_finally_try"}
 var blockCores = []string{"recv", "send", "recv2", "range_chan", "recv_stmt", "drain_two", "drain_three", "forward_blocked", "forward_full"}
 var wrappers = []string{"fn0", "fn2", "fn4", "fn5", "fnvar", "anon", "go_join", "go_join5", "try_body", "catch", "finally", "coalesce_l", "coalesce_r", "ternary", "deferred", "list_elem", "go_arg", "module", "if", "switch_case", "forin_once", "try_empty_catch", "try_empty_catch_e", "try_empty_finally", "deferred_implicit", "deferred_top", "deferred_twice", "return_call", "finally_after_throwing_catch", "finally_after_returning_catch", "callback"}
 
@@ -102,6 +102,16 @@ func coreSrc(core string) string {
 		return "func deep(n) {\n tick()\n return deep(n + 1) + 1\n}\ndeep(0)"
 	case "recursion":
 		return "func rec(n) {\n tick()\n if n % 50 == 49 {\n  return n\n }\n return rec(n + 1)\n}\nfor {\n rec(0)\n}"
+	case "fail_after_tick":
+		// the cancellation lands in the middle of a statement that then fails with an ordinary error inside a
+		// try body: the ordinary error goes to the (empty) catch block, the interruption must still end the run
+		return "for {\n try {\n  fv = [tick(), nosuch]\n } catch fe {\n }\n}"
+	case "member_after_tick":
+		return "for {\n try {\n  tick().nosuch\n } catch {\n }\n}"
+	case "throw_spin":
+		return "for {\n try {\n  tick()\n  throw \"x1\"\n } catch fe {\n }\n}"
+	case "fail_in_finally_try":
+		return "for {\n try {\n  fv = tick() + nosuch\n } catch fe {\n  fv = fe\n } finally {\n  fv = 0\n }\n}"
 	case "loop_in_switch":
 		return "for {\n switch 1 {\n case 1:\n  tick()\n }\n}"
 	case "loop_nested_break":
